@@ -1071,6 +1071,37 @@ def frag_n_tauint(fn):
     return [ast.fix_missing_locations(ren.visit(x)) for x in st] + [ast.Return(value=ast.Name(id="nt", ctx=ast.Load()))]
 
 
+def frag_tauexp_search(fn):
+    """Obs.gamma_method, tau_exp branch: `_compute_drho(1)` then
+           for n in range(1, w_max // 2): _compute_drho(n + 1); if <criterion at n> or n >= w_max // 2 - 2: ...; break
+    The fragment is the search (which n the loop stops at).  Checked syntactically: drho(1) is computed before the loop and drho(n + 1)
+    before the criterion of iteration n is evaluated, so the criterion at n reads an entry of e_drho that has been computed; exactly n is
+    stored as the window; the loop leaves only through the final break."""
+    want_iter = _d(ast.parse("range(1, w_max // 2)", mode="eval").body)
+    found = [x for x in ast.walk(fn) if isinstance(x, ast.For) and _d(x.iter) == want_iter and isinstance(x.target, ast.Name) and x.target.id == "n"]
+    if len(found) != 1:
+        raise TranslateError("gamma_method: the tau_exp loop was not found exactly once")
+    loop = found[0]
+    if loop.orelse or len(loop.body) != 2 or _d(loop.body[0]) != _d(ast.parse("_compute_drho(n + 1)").body[0]) or not isinstance(loop.body[1], ast.If):
+        raise TranslateError("gamma_method: the tau_exp loop body is not `_compute_drho(n + 1)` followed by one `if`")
+    cond = loop.body[1]
+    if cond.orelse or not isinstance(cond.body[-1], ast.Break) or any(isinstance(x, (ast.Break, ast.Continue, ast.Return)) for st in cond.body[:-1] for x in ast.walk(st)):
+        raise TranslateError("gamma_method: the tau_exp loop does not stop with a single `break` at the end of its `if`")
+    stored = [st for st in cond.body if isinstance(st, ast.Assign) and _d(st.targets[0]).replace("Store()", "Load()") == _d(ast.parse("self.e_windowsize[e_name]", mode="eval").body)]
+    if len(stored) != 1 or not (isinstance(stored[0].value, ast.Name) and stored[0].value.id == "n"):
+        raise TranslateError("gamma_method: the window stored in the tau_exp branch is not the loop variable n")
+    # _compute_drho(1) precedes the loop in the same block
+    parents = [x for x in ast.walk(fn) if isinstance(x, ast.If) and loop in x.body]
+    if len(parents) != 1:
+        raise TranslateError("gamma_method: the tau_exp loop is not directly inside one `if`")
+    blk = parents[0].body
+    before = [_d(st) for st in blk[:blk.index(loop)]]
+    if _d(ast.parse("_compute_drho(1)").body[0]) not in before:
+        raise TranslateError("gamma_method: _compute_drho(1) is not called before the tau_exp loop")
+    search = ast.For(target=loop.target, iter=loop.iter, body=[ast.If(test=cond.test, body=[ast.Return(value=ast.Name(id="n", ctx=ast.Load()))], orelse=[])], orelse=[])
+    return [search, ast.Raise(exc=ast.Call(func=ast.Name(id="KeyError", ctx=ast.Load()), args=[], keywords=[]), cause=None)]
+
+
 def frag_window_search(fn):
     """Obs.gamma_method: the automatic-windowing loop `for n in range(1, w_max): if g_w[n - 1] < 0 or n >= w_max - 1: ...; break`.
     The fragment is the search itself: which n the loop stops at (its body up to `break` is the bookkeeping of that n)."""
@@ -1188,6 +1219,9 @@ SIGS = [
          extra_params=[("v_gamma", ARR), ("v_w_max", INT)], env={"gamma": ARR, "w_max": INT}),
     dict(coq="gamma_method_n_tauint", py="Obs.gamma_method", fragment=frag_n_tauint, params=[], ret=ARR,
          extra_params=[("v_rho", ARR)], env={"rho": ARR}),
+    dict(coq="gamma_method_tauexp_search", py="Obs.gamma_method", fragment=frag_tauexp_search, params=[], ret=INT,
+         extra_params=[("v_crit", "(Z -> bool)"), ("v_w_max", INT)], env={"w_max": INT},
+         aliases={"(self.e_rho[e_name][n] - self.N_sigma[e_name] * self.e_drho[e_name][n]) < 0": ("(v_crit v_n)", BOOL)}),
     dict(coq="_reduce_deltas", py="_reduce_deltas", params=[("deltas", ARR), ("idx_old", IDL), ("idx_new", IDL)], ret=ARR),
     dict(coq="covariance_calc_gamma", py="_covariance_element.calc_gamma", needs=["_reduce_deltas"],
          params=[("deltas1", ARR), ("deltas2", ARR), ("idx1", IDL), ("idx2", IDL), ("new_idx", IDL)], ret=FLOAT),
